@@ -26,6 +26,10 @@ def pSAct : P SAct := do
   | "finishc" => pure (.finish (some (← tok)))
   | "yield" => pure (.yield (← tok))
   | "break" => pure (.brk (← pNat))
+  | "cond" => do
+    let n ← pNat
+    let bs ← pMany n (do let c ← pCond; let b ← pNat; pure (c, b))
+    pure (.cond bs)
   | _ => throw s!"bad sact token {t}"
 
 def pPc : P PerChar := do
